@@ -564,6 +564,24 @@ func genQuery(t *rapid.T, md mode, gi *genInfo) string {
 	if len(mine) > 0 && rapid.IntRange(0, 9).Draw(t, "with_target") < 8 {
 		cc.target = mine[rapid.IntRange(0, len(mine)-1).Draw(t, "target")]
 	}
+	if md.cond == "hint" {
+		// exact series of a written point, all its tags as equalities (the shape the hint is documented for)
+		var withTags []*pointSpec
+		for _, p := range mine {
+			if len(p.tags) > 0 {
+				withTags = append(withTags, p)
+			}
+		}
+		if len(withTags) == 0 {
+			return "SELECT * FROM " + dbName + "." + rpName + "." + m.name
+		}
+		tp := withTags[rapid.IntRange(0, len(withTags)-1).Draw(t, "hint_target")]
+		var atoms []string
+		for _, k := range rapid.Permutation(sortedCopy(tp.order)).Draw(t, "hint_order") {
+			atoms = append(atoms, k+" = "+quote(tp.tags[k]))
+		}
+		return "SELECT /*+ full_series */ * FROM " + dbName + "." + rpName + "." + tp.mst + " WHERE (" + strings.Join(atoms, " AND ") + ")"
+	}
 	src := dbName + "." + rpName + "." + m.name
 	if md.regexSource {
 		src = dbName + "." + rpName + "./^m[0-9]$/"
